@@ -49,13 +49,15 @@ class Lock:
         self.f.close()
 
 
-def build_tools(log):
-    """go build translator and harness against the current /repo tree."""
+def build_tools(log, pid=None, want_harness=True):
+    """go build translator and the property's harness program against the current /repo tree."""
     t = os.path.join(VERIF, "tools", "go2coq")
     rc, out = sh(["go", "build", "-o", "go2coq", "."], cwd=t, env=GOENV, timeout=600)
     log.append(("build go2coq", rc, out))
     if rc != 0:
         return False
+    if not want_harness or pid is None:
+        return True
     h = os.path.join(VERIF, "harness")
     gosum = os.path.join(REPO, "go.sum")
     if os.path.exists(gosum):
@@ -65,9 +67,18 @@ def build_tools(log):
         if not os.path.exists(dst) or open(dst).read() != data:
             with open(dst, "w") as f:
                 f.write(data)
-    rc, out = sh(["go", "build", "-tags", "verif", "-o", "harness", "."], cwd=h, env=GOENV, timeout=900)
+    os.makedirs(os.path.join(BUILD, "bin"), exist_ok=True)
+    env = dict(GOENV)
+    if RACE_PROPS.get(pid):
+        env["CGO_ENABLED"] = "1"
+    cmd = ["go", "build", "-tags", "verif"] + (["-race"] if RACE_PROPS.get(pid) else []) + \
+          ["-o", os.path.join(BUILD, "bin", pid.lower()), "./cmd/" + pid.lower()]
+    rc, out = sh(cmd, cwd=h, env=env, timeout=900)
     log.append(("build harness", rc, out))
     return rc == 0
+
+
+RACE_PROPS = {}
 
 
 def translate(parts, log):
@@ -80,9 +91,22 @@ def translate(parts, log):
 
 
 def ensure_makefile():
-    mk = os.path.join(COQ, "Makefile")
+    """_CoqProject is generated from the directory listing (every .v under coq/), so that
+    adding a file needs no shared edit; Makefile is regenerated when the listing changes."""
+    vs = []
+    for d, _, fs in os.walk(COQ):
+        for f in fs:
+            if f.endswith(".v"):
+                vs.append(os.path.relpath(os.path.join(d, f), COQ))
+    vs.sort()
+    content = "-Q . NV\n-arg -w -arg -notation-overridden,-deprecated-hint-without-locality,-deprecated-instance-without-locality\n" + "\n".join(vs) + "\n"
     cp = os.path.join(COQ, "_CoqProject")
-    if not os.path.exists(mk) or os.path.getmtime(mk) < os.path.getmtime(cp):
+    mk = os.path.join(COQ, "Makefile")
+    changed = not os.path.exists(cp) or open(cp).read() != content
+    if changed:
+        with open(cp, "w") as f:
+            f.write(content)
+    if changed or not os.path.exists(mk):
         sh(["coq_makefile", "-f", "_CoqProject", "-o", "Makefile"], cwd=COQ)
 
 
@@ -292,7 +316,7 @@ def check(cfg, tier, seed, replay=None):
     model_ok = True
     make_out = ""
     with Lock():
-        tools_ok = build_tools(log)
+        tools_ok = build_tools(log, pid, cfg.get("harness", True))
         if not tools_ok:
             problems.append({"kind": "build", "detail": "translator or harness does not build against the current /repo tree",
                              "output": log[-1][2][-3000:]})
@@ -333,7 +357,7 @@ def check(cfg, tier, seed, replay=None):
     failures, known_hits = [], []
     mismatches, case_errors, n_case_files = [], [], 0
     if tools_ok and cfg.get("harness", True):
-        args = [os.path.join(VERIF, "harness", "harness"), pid, outdir, tier, str(seed)]
+        args = [os.path.join(BUILD, "bin", pid.lower()), outdir, tier, str(seed)]
         if replay:
             args.append(replay)
         try:
